@@ -516,6 +516,30 @@ pub fn centres(quick: bool) -> Vec<(f64, f64)> {
   v
 }
 
+/// Centres placed relative to the radius: at a fraction of the radius from the critical
+/// parallels (transition latitudes, square-cell latitudes, equator, poles) and close to the
+/// critical meridians (base-cell borders and centres).
+pub fn relative_centres(r: f64, quick: bool) -> Vec<(f64, f64)> {
+  let tl = transition_lat();
+  let crit_lat = [tl, -tl, 0.39934019947897773, -0.39934019947897773, 0.0, HALF_PI, -HALF_PI];
+  let fs: &[f64] = if quick { &[0.45, 0.9] } else { &[0.2, 0.45, 0.75, 0.9, 1.05] };
+  let lons: Vec<f64> = if quick { vec![0.003, PI / 4.0 + 0.4 * r, 3.0 * PI / 2.0 - 0.7 * r] } else { vec![0.003, 0.3 * r, PI / 4.0 + 0.4 * r, PI / 2.0 + 0.011, 3.0 * PI / 2.0 - 0.7 * r, 5.6] };
+  let mut v = vec![];
+  for &l in &crit_lat {
+    for &f in fs {
+      for s in [-1.0, 1.0] {
+        let lat = l + s * f * r;
+        if lat.abs() <= HALF_PI {
+          for &lon in &lons {
+            v.push((lon.rem_euclid(TWO_PI), lat));
+          }
+        }
+      }
+    }
+  }
+  v
+}
+
 pub fn run(ctx: &Ctx, c06: bool) -> i32 {
   let quick = ctx.quick();
   let id = if c06 { "C06" } else { "C05" };
@@ -542,15 +566,62 @@ pub fn run(ctx: &Ctx, c06: bool) -> i32 {
       jobs.push((d, ci, true));
     }
   }
+  // radius-relative centres: one job per (depth, radius index), marked by ci = usize::MAX - index
+  let all_depths: Vec<u8> = (0..=dmax).chain(deep_depths.iter().cloned()).collect();
+  for &d in &all_depths {
+    let nr = if d <= dmax { radii_for(d, quick).len() } else { 25 };
+    for ri in 0..nr {
+      jobs.push((d, usize::MAX - ri, d > dmax));
+    }
+  }
   let total = par_jobs(jobs.len(), |j| {
     let (d, ci, deep) = jobs[j];
-    let (lon, lat) = cs[ci];
     let mut part = Part::new();
     if ctx.over_budget() {
       part.caps.push(format!("wall budget {}s reached in {} enumeration", ctx.budget_s, id));
       return part;
     }
     let t = thresholds();
+    if ci > usize::MAX - 1000 {
+      // radius-relative centres
+      let ri = usize::MAX - ci;
+      let r = if !deep {
+        radii_for(d, quick)[ri]
+      } else {
+        let ks = [d as i32 - 4, d as i32 - 1, d as i32, d as i32 + 1, d as i32 + 2];
+        let k = ks[ri / 5];
+        if !(0..30).contains(&k) {
+          return part;
+        }
+        t[k as usize] * [0.7, 0.9, 0.999, 1.0, 1.05][ri % 5]
+      };
+      if !(r < 1.2) {
+        return part;
+      }
+      for (lon, lat) in relative_centres(r, quick) {
+        for (variant, delta) in [(0u8, 0u8), (2, 1)] {
+          if d + delta > 29 || (!deep && d + delta > 7) {
+            continue;
+          }
+          let q = ConeQ { variant, depth: d, delta, lon, lat, r };
+          part.stratum(if deep { "deep-relative-centres" } else { "shallow-relative-centres" }, 1, 1);
+          if c06 {
+            if let Some(v) = check_c06(&q, &mut part) {
+              part.viol(v);
+            }
+          } else {
+            let verdict = if deep { check_c05_deep(&q, listed_kf1, &mut part) } else { check_c05(&q, listed_kf1, &mut part) };
+            match verdict {
+              Verdict::Ok => {}
+              Verdict::Known(k, ex) => part.known(k, ex),
+              Verdict::Bad(v) => part.viol(v),
+            }
+          }
+        }
+      }
+      return part;
+    }
+    let (lon, lat) = cs[ci];
     if !deep {
       for r in radii_for(d, quick) {
         let mut variants: Vec<(u8, u8)> = vec![(0, 0), (1, 0)];
@@ -617,7 +688,7 @@ pub fn run(ctx: &Ctx, c06: bool) -> i32 {
     ctx,
     total,
     json!({"shallow_depths": format!("0..={} (every cell of the depth is a candidate)", dmax), "delta_depths": deltas, "variants": ["approx", "flat", "custom"],
-      "centres": cs.len(), "radii_per_depth": radii_for(dmax, quick).len(), "deep_depths": deep_depths,
+      "centres": cs.len(), "radius_relative_centres": "for every radius < 1.2: centres at 2 (quick) / 5 (thorough) fractions of the radius on either side of the 7 critical parallels (transition, square-cell, equator, poles) x 3 / 6 longitudes near the critical meridians", "radii_per_depth": radii_for(dmax, quick).len(), "deep_depths": deep_depths,
       "witnesses": "9x9 lattice of each closed cell (vertices and edge points included) + the cone centre"}),
     "every (variant, depth, delta_depth, centre, radius) combination of the alphabets; for each shallow query every cell of the depth",
     vec![
